@@ -27,6 +27,7 @@ ASSUMPTIONS = [
 ]
 
 KEYS = ['x', 'y']
+FINAL_OPS = [('get', 'x'), ('get', 'y'), ('get', 'n'), ('len',), ('list',)]
 MISS = 'MISS'
 WRITES = {'set', 'add', 'incr', 'decr', 'pop', 'delete', 'setitem'}
 
@@ -254,7 +255,7 @@ def run_program(env, case, inspect=None):
         caches = [base] + [diskcache.Cache(path, timeout=0) for _ in range(n - 1)]
         return caches, caches
 
-    calls, sched = run_scheduled(env, case['progs'], case['schedule'], open_clients, do_op, 'C05', warm=lambda c: c._sql, inspect=inspect)
+    calls, sched = run_scheduled(env, case['progs'], case['schedule'], open_clients, do_op, 'C05', warm=lambda c: c._sql, inspect=inspect, final_ops=FINAL_OPS)
     return calls, tuple(sorted(case['init'].items())), sched
 
 
